@@ -286,3 +286,37 @@ func itoa(x int) string {
 	}
 	return out
 }
+
+// H_two_temp: two coroutines of ONE request (they share the request's temporary VM, as spawn
+// does) register and look up classes, functions and interfaces: no data race on the request's
+// own tables, and the results equal those of some sequential order.
+func H_two_temp() {
+	ops := [2]int{symx.Choose("op0", 5), symx.Choose("op1", 5)}
+	names := [2]string{pool[symx.Choose("n0", 2)], pool[symx.Choose("n1", 2)]}
+	base := runtime.NewVM(parser.NewParser())
+	vm := runtime.NewTempVM(base)
+	var wg sync.WaitGroup
+	res := [2]int{}
+	wg.Add(2)
+	for t := 0; t < 2; t++ {
+		t := t
+		go func() {
+			res[t] = do(vm, ops[t], names[t], t+1)
+			wg.Done()
+		}()
+	}
+	wg.Wait()
+	match := false
+	for _, order := range [][2]int{{0, 1}, {1, 0}} {
+		w := runtime.NewTempVM(runtime.NewVM(parser.NewParser()))
+		var sr [2]int
+		for _, t := range order {
+			sr[t] = doSlot(w, ops[t], names[t], t+1, t+5)
+		}
+		if sr == res {
+			match = true
+		}
+	}
+	symx.Assert(match, "results equal those of some sequential order of the same calls")
+	symx.Reach("end")
+}
